@@ -774,6 +774,22 @@ def expand_combinators(raw, raws, max_n=40):
             b['stmts'].append(_assign(_loc(d, 'isize'), {'k': 'discr', 'place': ep}, t))
             b['term'] = dict(g, k='switch', discr={'k': 'move', 'place': _loc(d, 'isize')}, discr_ty='isize', targets=targets, otherwise=unreach, model=best)
             n += 1
+        elif re.match(r'std::ops::ControlFlow::<B, C>::(is_break|is_continue)$', best or '') and len(args) == 1:
+            # ControlFlow::{Continue = 0, Break = 1}: `x.is_break()` is `matches!(x, Break(_))`
+            ep, ety = _enum_place(args[0])
+            if ep is None:
+                continue
+            want = 1 if best.endswith('is_break') else 0
+            d = _new_local(raw, 'isize')
+
+            def cbool(v):
+                return _new_block(raw, [_assign(dest, {'k': 'use', 'op': {'k': 'const', 'ty': 'bool', 'text': 'true' if v else 'false', 'bits': '1' if v else '0'}}, t)],
+                                  dict(g, k='goto', target=tgt), b['cleanup'])
+            a0, a1 = cbool(want == 0), cbool(want == 1)
+            unreach = _new_block(raw, [], dict(g, k='unreachable'), b['cleanup'])
+            b['stmts'].append(_assign(_loc(d, 'isize'), {'k': 'discr', 'place': ep}, t))
+            b['term'] = dict(g, k='switch', discr={'k': 'move', 'place': _loc(d, 'isize')}, discr_ty='isize', targets=[['0', a0], ['1', a1]], otherwise=unreach, model=best)
+            n += 1
         elif best in ('std::primitive::bool::then', 'bool::then', 'core::bool::<impl bool>::then', 'std::primitive::bool::then_some', 'core::bool::<impl bool>::then_some') \
                 or re.match(r'(std|core)::bool::<impl bool>::then(_some)?$', best or ''):
             some_name = (best or '').endswith('then_some')
